@@ -445,7 +445,7 @@ def layer_correspondence(ctx, facts):
     import pandapipes as pp
     from harness import c15_nets
     rows = []
-    for name, b in c15_nets.BUILDERS[:6]:
+    for name, b in c15_nets.BUILDERS[:7]:
         net = b(ctx.rng)
         net["_private_thing"] = 1
         net["__dunder"] = 2
@@ -484,6 +484,10 @@ def layer_correspondence(ctx, facts):
         for cls, keys in props:
             if cls == "FluidPropertyInterExtra" and not set(facts["prop_getter_entries"]).issubset(keys):
                 ctx.violation({"clause": "interextra_fields"}, "FluidPropertyInterExtra written without %s: %s" % (facts["prop_getter_entries"], keys), {})
+            if cls == "FluidPropertyPolynominal" and (not set(facts["extra"]["poly_fields"]).issubset(keys) or
+                                                      "prop_getter" in keys or "prop_int_getter" in keys):
+                ctx.violation({"clause": "polynominal_fields"}, "FluidPropertyPolynominal written with fields %s (expected %s, "
+                              "no poly1d objects)" % (keys, facts["extra"]["poly_fields"]), {})
             if cls == "FluidPropertyInterExtra" and "prop_getter" in keys:
                 ctx.violation({"clause": "interextra_fields"}, "FluidPropertyInterExtra written with the interpolator object", {})
 
